@@ -188,6 +188,14 @@ def check(ck):
                            "reloaded class, or another configuration's class, is not the one used)" % bad, q.loc(fl, n))
     if n8 < 1:
         raise AnalysisError("anchor vanished: constructor call in jsonclass.load")
+    for n in gl.live_nodes():
+        for c in node_calls(n):
+            if isinstance(c.func, ast.Name) and c.func.id == "__import__":
+                fl_ = kwarg(c, "fromlist", 3)
+                okk = isinstance(fl_, (ast.List, ast.Tuple)) and len(fl_.elts) >= 1
+                ck.require(okk, "C07.8", "%s: `%s`" % (q.fn(fl), dump(c)[:60]), "__import__(<module path>, fromlist=[<class name>])",
+                           "the module of a dotted class name is imported without a non-empty fromlist: __import__ returns the top-level "
+                           "package, so classes of sub-modules (pkg.mod.Cls) are not found", q.loc(fl, n))
     # load() evaluated abstractly (E7) on a descriptor {"__jsonclass__": [name, params]}: one constructor call, which receives
     # a list's elements positionally in order, or a dictionary's items by keyword; anything else is a TranslationError
     # raised before any constructor runs
